@@ -1,4 +1,5 @@
 import Acra.Drv.SpecFTI
+import Acra.Drv.SpecMpeg
 namespace Acra.Drv
-def specFuncs : List Func := specFuncsFTI
+def specFuncs : List Func := specFuncsFTI ++ specFuncsMpeg
 end Acra.Drv
